@@ -39,6 +39,10 @@ func genCase(t *rapid.T) Case {
 		p := rapid.IntRange(0, k-1).Draw(t, "lsp")
 		q := rapid.IntRange(0, k-1).Draw(t, "lsq")
 		motif := []world.Step{{Op: "publish", P: p, N: 1}, {Op: "hold", P: p}, {Op: "announce", P: p}, {Op: "tick"}, {Op: "publish", P: q, N: 1}, {Op: "announce", P: q}, {Op: "open", P: p}}
+		if rapid.Bool().Draw(t, "lsentries") {
+			// the long-running sync is an explicit entries sync; afterwards the publisher is announced
+			motif = []world.Step{{Op: "hold", P: p}, {Op: "entries", P: p, N: 2}, {Op: "tick"}, {Op: "open", P: p}, {Op: "publish", P: p, N: 1}, {Op: "announce", P: p}}
+		}
 		at := rapid.IntRange(0, len(sc.Steps)).Draw(t, "lsat")
 		sc.Steps = append(sc.Steps[:at:at], append(motif, sc.Steps[at:]...)...)
 	}
